@@ -206,7 +206,10 @@ def rq_balanced(case, ctx):
     wvals = [float("nan") if e < 0 else float(2 ** e) for e in case["wexp"]]
     other = [float(2 ** ((k * 3 + 1) % 4)) for k in range(len(wvals))]   # a decoy column with other weights
     name = case["wname"]
-    path = _open(case, ctx, {name: wvals, ("other" if name != "other" else "weight"): other})
+    first = case.get("wexp_first") or []
+    rewrite = bool(first) and case.get("open", "handle") != "handle"      # (a file held open read-only cannot be rewritten)
+    w0 = [float("nan") if e < 0 else float(2 ** e) for e in first] if rewrite else wvals
+    path = _open(case, ctx, {name: w0, ("other" if name != "other" else "weight"): other})
     kw = {}
     if case["divisive"] != "None":
         kw["divisive_weights"] = case["divisive"] == "True"
@@ -215,6 +218,16 @@ def rq_balanced(case, ctx):
 
     def run(c):
         out = []
+        if rewrite:
+            # this object serves balanced reads with the EARLIER weights first (all three forms); then the column is
+            # rewritten in the file, as re-balancing with storage does
+            import h5py
+            for k2 in ({"sparse": True}, {"sparse": False}, {"as_pixels": True}):
+                c.matrix(balance=bal, chunksize=chunk, **k2, **kw)[:, :]
+            fp, grp = gen.split_uri(path)
+            with h5py.File(fp, "r+") as f:
+                del f[grp]["bins"][name]
+                f[grp]["bins"].create_dataset(name, data=np.array(wvals, dtype=float))
         for w in case["wins"]:
             i0, i1, j0, j1 = w
             sp = c.matrix(balance=bal, sparse=True, chunksize=chunk, **kw)[i0:i1, j0:j1]
